@@ -43,7 +43,7 @@ type c17Transition struct {
 
 func runC17(c *core.Ctx) {
 	c.Rule("R1", "state fields are assigned only by the transition function (and constructors)", 2)
-	c.Rule("R2", "extracted transitions = the property's table; each transition notifies listeners once with matching callback/from/terminal flag", 8)
+	c.Rule("R2", "extracted transitions = the property's table; each transition notifies listeners once with matching callback/from/terminal flag", 12)
 	c.Rule("R3", "start/run/stop called once, in order; no run/stop after failed start; stop always after successful start; cancel dominates stop; main spawned only by New→Starting", 5)
 	c.Rule("R4", "both waiter channels are closed exactly once on every path", 2)
 	c.Rule("R5", "stateMu / Manager.mu guard the state, failure cause, listeners and name (lockset; transition closures inherit the lock)", 2)
